@@ -81,7 +81,8 @@ def _model_classes():
     class Rec(Collector):
         def collect(self):
             m = self.model
-            self.records.append((m.a, m.b, m.systems.timestep))
+            # a collector that re-binds its record list (a sliding window would): what counts is `records` after the run
+            self.records = self.records + [(m.a, m.b, m.systems.timestep)]
 
     class Stopper(System):
         def execute(self):
@@ -114,7 +115,7 @@ class BM:
         Model, Rec, Stopper = _model_classes()
 
         class _M(Model):
-            pass
+            timestep = 0.25        # the user's own attribute (say, hours per tick): not the scheduler's step counter
         m = _M(seed)
         m = _build(m, a, b, stop, fail, Rec, Stopper)
         for _ in range(burn):          # a model that warms up inside its constructor: its clock does not start at 0
@@ -221,7 +222,25 @@ def _run_history(case, props=None):
             w = f'after op {k} {op!r}'
             if op[0] == 'new':
                 arg = None if op[1] is None else {n: _value(s) for n, s in op[1].items()}
-                pl = B.ParameterList(arg)
+
+                class Tracked(B.ParameterList):
+                    _verif_user = True
+                    # a user subclass that watches later additions: the constructor's own declarations are not
+                    # "later additions" (the base constructor does not go through the overridable public method)
+                    def __init__(self, parameters=None):
+                        super().__init__(parameters)
+                        self.later = []
+
+                    def add_parameter(self, name, value):
+                        self.later.append(name)
+                        return super().add_parameter(name, value)
+                try:
+                    pl = Tracked(arg)
+                except AttributeError as ex:
+                    out.append(('C14', f'{w}: constructor declaration rejected for a subclass that overrides '
+                                       f'add_parameter: {ex}'))
+                    pl = None
+                    continue
                 decl = [] if arg is None else [(n, v) for n, v in arg.items()]
             elif pl is None:
                 continue
